@@ -14,7 +14,7 @@ pub struct C08;
 
 const BASES: &[&str] = &["int", "uint", "float", "angle", "bool", "bit", "complex", "duration", "stretch"];
 const WIDTHS: &[Option<u32>] = &[None, Some(8), Some(32), Some(64)];
-const FORMS: &[&str] = &["literal", "negative-literal", "variable", "const-variable", "arithmetic", "cast", "call", "measurement"];
+const FORMS: &[&str] = &["literal", "negative-literal", "variable", "const-variable", "arithmetic", "cast", "call", "measurement", "shadowed-variable"];
 const CONTEXTS: &[&str] = &["declaration", "const-declaration", "assignment"];
 
 #[derive(Clone, Copy, PartialEq, Debug)]
@@ -160,6 +160,14 @@ fn build(ctx: &str, target: Ty, value: Ty, form: &'static str) -> Option<Case> {
             pre.push_str(&format!("{} src;\n", text(value)));
             "src".into()
         }
+        // `T src = src;` in an inner scope: the initializer still means the outer variable
+        "shadowed-variable" => {
+            if ctx != "declaration" {
+                return None;
+            }
+            pre.push_str(&format!("{} src;\n", text(value)));
+            "src".into()
+        }
         "const-variable" => {
             let (l, _) = literal_for(value)?;
             if value.base == "bit" && !matches!(value.width, None | Some(8)) {
@@ -205,6 +213,7 @@ fn build(ctx: &str, target: Ty, value: Ty, form: &'static str) -> Option<Case> {
         _ => return None,
     };
     let stmt = match ctx {
+        "declaration" if form == "shadowed-variable" => format!("if (true) {{ {} src = {expr}; }}", text(target)),
         "declaration" => format!("{} tgt = {expr};", text(target)),
         "const-declaration" => format!("const {} tgt = {expr};", text(target)),
         _ => {
@@ -321,7 +330,10 @@ fn check_case(c: &Case, ctx: &str, obs: &mut Obs) {
     };
     let r = guard(|| {
         let kinds: Vec<String> = res.semantic_errors().iter().map(diag_kind).collect();
-        let last = res.program().stmts().last().cloned();
+        let mut last = res.program().stmts().last().cloned();
+        if let Some(Stmt::If(i)) = &last {
+            last = i.then_branch().statements().last().cloned();
+        }
         let mut local = Vec::new();
         let value: Option<TExpr> = match &last {
             Some(Stmt::DeclareClassical(d)) => d.initializer().cloned(),
